@@ -6,7 +6,7 @@ package tunnel
 
 // C02: the tunnel end-blocker never returns an error (and keeps the module's store invariant)
 //@ func EndBlocker
-//@ modifies Store_tunnel, Bank, Other, RouteSent
+//@ modifies Store_tunnel, Bank, Other, RouteSent, Count_ProduceActiveTunnelPacket
 //@ requires forall t Int :: keeper.wfTunnel(Store_tunnel, t) && keeper.wfLP(Store_tunnel, t)
 //@ ensures err == nil
 
@@ -17,3 +17,12 @@ package tunnel
 //@ may_panic calls
 //@ modifies *
 //@ forwards EndBlocker
+
+// C17: the genesis validation the SDK runs for this module IS types.ValidateGenesis (deposit sums, known tunnels, ids within
+// the counter): the entry point either fails to decode the state or returns exactly that validation's verdict
+//@ extern (c github.com/cosmos/cosmos-sdk/codec.JSONCodec) UnmarshalJSON(bz, ptr) (err)
+//@ modifies ptr
+//@ func (b AppModuleBasic) ValidateGenesis
+//@ may_panic calls
+//@ modifies *
+//@ forwards ValidateGenesis
